@@ -142,8 +142,15 @@ func runCHSite(r *Run, s *chSite) {
 	}
 	for name, val := range s.AssumeBoolParam {
 		found := false
+		// the function's only bool parameter, whatever it is called; by name when there are several
+		var bools []*ssa.Parameter
 		for _, prm := range fn.Params {
-			if prm.Name() == name {
+			if b, ok := prm.Type().Underlying().(*types.Basic); ok && b.Kind() == types.Bool {
+				bools = append(bools, prm)
+			}
+		}
+		for _, prm := range bools {
+			if len(bools) == 1 || prm.Name() == name {
 				extra[prm] = constant.MakeBool(val)
 				found = true
 			}
